@@ -45,7 +45,12 @@ pub fn run_case(progs: &[Prog], case: &Json) -> Result<Result<hist_props::RunInf
                     "C06" => hist_props::run_c06(prog, &ops),
                     "C20" => hist_props::run_c20(prog, &ops),
                     "C02" => multi_props::run_c02(prog, &ops),
-                    "C07" => multi_props::run_c07(prog, &ops, case.get("k").and_then(|k| k.as_u64()).map(|k| k as u32)),
+                    "C07" => multi_props::run_c07(
+                        prog,
+                        &ops,
+                        case.get("k").and_then(|k| k.as_u64()).map(|k| k as u32),
+                        case.get("again").and_then(|b| b.as_bool()).unwrap_or(false),
+                    ),
                     "C17" | "C18" if prog.model.is_none() => return Err(format!("{name} has no model declaration")),
                     "C17" => c17::run_c17(prog, &ops, false),
                     "C18" => c17::run_c17(prog, &ops, true),
@@ -297,7 +302,11 @@ fn worker(args: &WorkerArgs, progs: &[Prog]) -> ShardStats {
                 }
             }
             Ok(Err((class, _))) => {
-                if report(&mut stats, progs, prop, case, class, seed, idx) {
+                let stop = report(&mut stats, progs, prop, case, class, seed, idx);
+                // findings survive a later death of this worker (e.g. an allocation failure in a
+                // run-away close on a changed tree)
+                let _ = stats.write(args, ENGINE);
+                if stop {
                     break;
                 }
             }
